@@ -751,3 +751,255 @@ func runHonestPrefix(r *mon.Run, cc c11Case) {
 		countMonitor(r, n)
 	}
 }
+
+// runForgedKnownBlock: three steps, three actors. (1) The victim's tip is above
+// the require height. (2) Byzantine Z answers the victim's history walk only
+// for an index BELOW the require height, which forces the store-then-validate
+// AddBlocks path, and serves the next honest block X with its correct header
+// (a v2 id covers the header only) but a forged body: the victim stores it, the
+// reorg fails, it keeps its tip and bans Z. (3) The victim syncs from honest H
+// starting at its tip; H's blocks come through the pre-validated path and the
+// validated copy of X must replace the stored forgery.
+//
+// cc.Pos is the forgery ("changed-miner-address", "extra-transaction",
+// "dropped-transaction"), cc.HonestDials the order (true: H is connected and in
+// sync before the episode and obtains its chain afterwards).
+func runForgedKnownBlock(r *mon.Run, cc c11Case) {
+	rng := r.RNG(cc.Stream)
+	prof := chainlab.Profile{MaxTxns: 4}
+	var p chainlab.Params
+	trunk := 0
+	if rng.IntN(3) == 0 {
+		p = chainlab.RandomParams("v2only", rng) // only genesis lies below the require height
+		trunk = 2 + rng.IntN(20)
+		cc.NetRegime = "v2only"
+	} else {
+		p = chainlab.RandomParams("mix", rng)
+		trunk = int(p.Require) + 1 + rng.IntN(8)
+		cc.NetRegime = "mix"
+	}
+	cc.Params = p
+	env := chainlab.NewEnv(p)
+	cc.InitialTarget = []byte{0x08, 0x10, 0x20, 0xFF}[rng.IntN(4)]
+	env.Net.InitialTarget = types.BlockID{cc.InitialTarget}
+	t := chainlab.NewTree(env, rng)
+	v0 := p2plab.GrowMixed(t, t.Root, trunk, 2, prof)
+	var x *chainlab.Node
+	for try := 0; try < 40 && x == nil; try++ {
+		if c := t.Extend(v0, prof); c.ChainValid && c.Block.V2 != nil && (cc.Pos != "dropped-transaction" || len(c.Block.V2.Transactions) > 0) {
+			x = c
+		}
+	}
+	if x == nil {
+		r.Count("cases_skipped:no suitable next block", 1)
+		return
+	}
+	hTip := p2plab.GrowMixed(t, x, 2+rng.IntN(7), 2, prof)
+	// the forgery: header untouched, body changed, miner payout total kept
+	// consistent so that the header-level checks of AddBlocks pass
+	forged := x.Block
+	v2 := *x.Block.V2
+	forged.V2 = &v2
+	forged.MinerPayouts = append([]types.SiacoinOutput(nil), x.Block.MinerPayouts...)
+	switch cc.Pos {
+	case "extra-transaction":
+		forged.V2.Transactions = append(append([]types.V2Transaction(nil), x.Block.V2.Transactions...), types.V2Transaction{ArbitraryData: []byte("not part of this block")})
+	case "dropped-transaction":
+		k := len(x.Block.V2.Transactions) - 1
+		forged.V2.Transactions = append([]types.V2Transaction(nil), x.Block.V2.Transactions[:k]...)
+		forged.MinerPayouts[0].Value = forged.MinerPayouts[0].Value.Sub(x.Block.V2.Transactions[k].MinerFee)
+	default:
+		forged.MinerPayouts[0].Address = env.A(chainlab.Bob).Addr
+		if forged.MinerPayouts[0].Address == x.Block.MinerPayouts[0].Address {
+			forged.MinerPayouts[0].Address = env.A(chainlab.Alice).Addr
+		}
+	}
+	if forged.ID() != x.ID || consensus.ValidateOrphan(v0.L.State, forged) != nil || v0.L.Validate(forged) == nil {
+		r.Count("cases_skipped:forgery not shaped as intended", 1)
+		return
+	}
+	cc.VictimTip, cc.VictimHeight, cc.HonestTip, cc.HonestHeight, cc.ByzTip = v0.Idx, v0.Height, hTip.Idx, hTip.Height, x.Idx
+	slot := p2plab.NextSlot()
+	act := p2plab.NewActivity()
+	prng := rand.New(rand.NewPCG(uint64(r.Seed)+923, cc.Stream))
+	mk := func(name string, i int, tip *chainlab.Node) (*p2plab.Node, error) {
+		return p2plab.NewNode(p2plab.NodeOpts{Activity: act, Name: name, IP: p2plab.HonestIP(slot, i), Tree: t, Tip: tip, KeepLog: name == "victim",
+			SyncInterval: time.Duration(50+prng.IntN(50)) * time.Millisecond, DiscoveryInterval: time.Hour, RPCTimeout: 2 * time.Second})
+	}
+	honestFirst := cc.HonestDials
+	hStart := hTip
+	if honestFirst {
+		hStart = v0
+	}
+	v, err1 := mk("victim", 0, v0)
+	h, err2 := mk("honest", 1, hStart)
+	if err1 != nil || err2 != nil {
+		r.Inconclusive(fmt.Sprintf("C11 case %d: cannot build nodes: %v %v", cc.Stream, err1, err2))
+		return
+	}
+	nodes := []*p2plab.Node{v, h}
+	v.Start()
+	h.Start()
+	if honestFirst {
+		if err := h.Connect(v.Addr); err != nil {
+			r.Count("honest_connect_errors", 1)
+		}
+		synced := false
+		for i := 0; i < 400 && !synced; i++ {
+			a, _ := v.PeerSynced(h.Addr)
+			b, _ := h.PeerSynced(v.Addr)
+			synced = a && b
+			time.Sleep(25 * time.Millisecond)
+		}
+		if !synced {
+			r.Count("cases_skipped:peers never marked each other synced", 1)
+			closeAll(r, nodes)
+			return
+		}
+	}
+	z, err := p2plab.NewByz("byz1", p2plab.ByzIP(slot, 0), t, x)
+	if err != nil {
+		r.Inconclusive(fmt.Sprintf("C11 case %d: cannot build byzantine peer: %v", cc.Stream, err))
+		closeAll(r, nodes)
+		return
+	}
+	defer z.Close()
+	z.Activity = act
+	req := env.Net.HardforkV2.RequireHeight
+	z.OnSendHeaders = func(b *p2plab.Byz, rq *gateway.RPCSendHeaders) p2plab.Reply {
+		if rq.Index.Height >= req {
+			b.Count("history-entries-refused-above-require", 1)
+			return p2plab.Reply{} // "not on our best chain": the victim walks further down its history
+		}
+		if !b.HonestHeaders(rq) {
+			return p2plab.Reply{}
+		}
+		return p2plab.Reply{Obj: rq, Faulted: true}
+	}
+	z.OnSendV2Blocks = func(b *p2plab.Byz, rq *gateway.RPCSendV2Blocks) p2plab.Reply {
+		b.HonestBlocks(rq)
+		for i := range rq.Blocks {
+			if rq.Blocks[i].ID() == x.ID {
+				rq.Blocks[i] = forged
+				fmt.Printf("note: C11 stream=%d serving block %v with its genuine header and a forged body (%s)\n", cc.Stream, x.ID, cc.Pos)
+				return p2plab.Reply{Obj: rq, Faulted: true}
+			}
+		}
+		return p2plab.Reply{Obj: rq}
+	}
+	if err := z.Dial(v.Addr); err != nil {
+		r.Count("byzantine_dial_errors", 1)
+	}
+	episode := false
+	for i := 0; i < 800; i++ {
+		v.Mon.Sample()
+		if z.Counter("faulted:SendV2Blocks") > 0 && len(v.PS.BansFor(z.IP)) > 0 {
+			episode = true
+			break
+		}
+		time.Sleep(25 * time.Millisecond)
+	}
+	time.Sleep(time.Duration(50+prng.IntN(150)) * time.Millisecond)
+	stored := false
+	for _, c := range v.Mon.Calls() {
+		if c.Kind == "AddBlocks" && strings.Contains(c.Err, "reorg failed") {
+			stored = true // the forgery went into the store and failed full validation
+		}
+	}
+	tipAfter := v.Mon.Sample()
+	z.Close()
+	if honestFirst {
+		if err := p2plab.Preload(h.CM, v0.Height, hTip); err != nil {
+			r.Inconclusive(fmt.Sprintf("C11 case %d: honest peer rejected the valid chain: %v", cc.Stream, err))
+		}
+	} else if err := h.Connect(v.Addr); err != nil {
+		r.Count("honest_connect_errors", 1)
+	}
+	reached := false
+	var announcing atomic.Bool
+	wt := newWaiter(act, c11ProgressBound)
+	for iter := 1; ; iter++ {
+		if wt.step() != "" {
+			break
+		}
+		v.Mon.Sample()
+		if v.CM.Tip().ID == hTip.ID {
+			reached = true
+			break
+		}
+		if iter%4 == 0 && announcing.CompareAndSwap(false, true) {
+			go func() { defer announcing.Store(false); h.Announce() }()
+		}
+		if iter%20 == 0 && !v.HasPeer(h.Addr) && !h.HasPeer(v.Addr) {
+			if banned, _ := v.PS.Banned(h.IP); !banned {
+				r.Count("honest_redials", 1)
+				h.Connect(v.Addr)
+			}
+		}
+		time.Sleep(50 * time.Millisecond)
+	}
+	var peersNow []string
+	for _, p := range v.S.Peers() {
+		peersNow = append(peersNow, fmt.Sprintf("%s synced=%v err=%v", p.Addr(), p.Synced(), p.Err()))
+	}
+	honestBans := v.PS.BansFor(h.IP)
+	validated := false
+	for _, c := range v.Mon.Calls() {
+		if c.Kind == "AddValidatedV2Blocks" && c.Err == "" {
+			validated = true
+		}
+	}
+	closeAll(r, nodes)
+	r.Eval()
+	order := "honest-after"
+	if honestFirst {
+		order = "honest-first"
+	}
+	row := cc.Pos + ":" + order
+	detail := map[string]any{"victim": reportOf(v), "honest": reportOf(h), "victim_peers_at_end": peersNow, "byzantine_counters": z.Counters(),
+		"forgery_stored_and_rejected": stored, "bans_of_honest_peer": honestBans, "victim_log_tail": v.LogTail(), "tree": summarize(t)}
+	if tipAfter != nil {
+		detail["victim_tip_after_byzantine_episode"] = tipAfter.Idx
+	}
+	for k, n := range z.Counters() {
+		r.Count("byzantine_"+k, n)
+	}
+	for _, br := range v.PS.Bans() {
+		r.Count("bans_observed:"+banReasonClass(br.Reason), 1)
+		r.Count("bans_observed_total", 1)
+	}
+	if !episode {
+		r.Count("faults_not_delivered:forged-body-under-known-id:"+row, 1)
+	} else {
+		r.Count("faults_delivered", 1)
+		r.Count("forged_known_block_episodes", 1)
+		if stored {
+			r.Count("forged_known_block_episodes_with_stored_forgery", 1)
+		}
+		if validated {
+			r.Count("forged_known_block_cases_resynced_through_the_prevalidated_path", 1)
+		}
+		r.Distinct("forged-known-block/" + row + "/" + cc.NetRegime)
+		r.SetAdd("fault_rows_delivered", "forged-body-under-known-id/"+row)
+		if len(honestBans) > 0 {
+			fmt.Printf("note: C11 stream=%d victim banned the honest peer after a forged copy of its block was stored: %v\n", cc.Stream, honestBans)
+			r.Violation("honest-peer-banned-after-forged-copy:"+banReasonClass(honestBans[0].Reason), "the honest peer that supplied the genuine block was reported to the peer store because a forged copy with the same id had been stored earlier", cc, detail)
+		}
+		if reached {
+			r.Count("cases_with_honest_peer_reaching_honest_tip", 1)
+			r.Count("forged_known_block_replaced_by_validated_copy", 1)
+		} else if wt.verdict == "slow" {
+			slowCase(r, fmt.Sprintf("C11 stream=%d forged-known-block %v", cc.Stream, wt.info()))
+		} else {
+			detail["liveness"] = wt.info()
+			fmt.Printf("note: C11 stream=%d stall:forged-body-under-known-id %s (%s) peers=%v\n", cc.Stream, row, wt.verdict, peersNow)
+			r.Violation("stall:forged-body-under-known-id:"+row, "after a Byzantine peer stored a forged body under the id of the next honest block, the victim did not reach the tip of the honest peer that supplies the genuine block", cc, detail)
+		}
+	}
+	for _, n := range nodes {
+		for _, fd := range n.Mon.Final() {
+			r.Violation(fd.Sig+":forged-known-block", fd.What, cc, map[string]any{"finding": fd.Detail, "run": detail})
+		}
+		countMonitor(r, n)
+	}
+}
